@@ -17,6 +17,30 @@ ASSUMPTIONS = [
 ]
 
 
+def table_run_text(max_size=24, min_cp=0):
+    """Strings that stay in the neighbourhood of one row of the width table (and of the row after it), the way text stays within one script: each character is a
+    code point just below the row, at / just after its first code point, at / just before its last one, or in the gap just above it (offsets 0..2), or a printable ASCII
+    character.  These are the strings on which anything remembered from one character to the next (a run, a range, a previous row) meets the row boundaries.
+    Code points below `min_cp`, surrogates and out-of-range values are replaced by 'a'."""
+    from rich._cell_widths import CELL_WIDTHS as rows
+
+    def build(i, picks):
+        out = []
+        for dr, kind, off in picks:
+            if kind == 4:
+                out.append("ab x~"[off + 2 * dr])
+                continue
+            start, end, _ = rows[min(i + dr, len(rows) - 1)]
+            cp = (start - 1 - off, min(end, start + off), max(start, end - off), end + 1 + off)[kind]
+            if cp < min_cp or cp > 0x10FFFF or 0xD800 <= cp <= 0xDFFF:
+                cp = 0x61
+            out.append(chr(cp))
+        return "".join(out)
+
+    pick = st.tuples(st.sampled_from([0, 0, 0, 1]), st.sampled_from([0, 1, 2, 2, 3, 3, 4]), st.sampled_from([0, 0, 0, 1, 2]))
+    return st.builds(build, st.integers(0, len(rows) - 1), st.lists(pick, min_size=1, max_size=max_size))
+
+
 # --------------------------------------------------------------------------------------------- (a)
 FOLLOWERS = ["\ufe0f", "\ufe0e", "\u200d", "\u0301", "\u20e3"]
 
@@ -151,7 +175,7 @@ class CodePoints(Part):
 # --------------------------------------------------------------------------------------------- (b)
 class History(Part):
     name = "history"
-    rule = ("histories of cell_len queries over a pool with repeats, interleaved with floods of >4096 distinct strings / code points "
+    rule = ("histories of cell_len queries (and set_cell_size calls) over a pool of mixed-width strings, arbitrary Unicode strings and strings that stay around one row of the width table, with repeats, interleaved with floods of >4096 distinct strings / code points "
             "(LRU eviction) and >64-char strings; non-trivial = a string was queried again after a flood and contains a non-narrow character")
     budget = {"quick": (8, 100), "thorough": (16, 600)}
     chunk = 100
@@ -159,7 +183,7 @@ class History(Part):
     def strategy(self, tier):
         # lengths around the cache's 64-character limit and its multiples
         boundary = st.builds(lambda unit, n, cut: (unit * 300)[:n - cut], st.sampled_from(["a", "ab", chars.WIDE[0], "a" + chars.WIDE[1], "x" + chars.ZERO[0]]), st.sampled_from([64, 128, 192, 256]), st.sampled_from([0, 0, 1]))
-        s = st.one_of(chars.mixed_text(12), chars.mixed_text(80, min_size=60), st.text(st.characters(blacklist_categories=("Cs",)), max_size=10), boundary)
+        s = st.one_of(chars.mixed_text(12), chars.mixed_text(80, min_size=60), st.text(st.characters(blacklist_categories=("Cs",)), max_size=10), boundary, table_run_text(12))
         q = st.tuples(st.just("q"), s)
         again = st.tuples(st.just("again"), st.integers(0, 30))
         flood = st.one_of(st.tuples(st.just("flood_str"), st.integers(0, 5)), st.tuples(st.just("flood_cp"), st.integers(0, 5)))
@@ -275,20 +299,41 @@ class FirstUseInterrupted(Part):
     custom = True
     exhaustive = True
     FIRSTS = ["\u3042\u30a2", "e\u0301\u0300", "a\u4e00\uff21\u200b", "\u1100\u115f\u1160"]
-    rule = ("in a fresh interpreter the first width measurement of the process (cell_len of a Hiragana/Katakana, a combining, a mixed CJK / fullwidth / zero-width or a Hangul-Jamo string) is "
-            "aborted by a KeyboardInterrupt raised at the K-th executed line of cells.py / _lru_cache.py, K = 1..120 (quick: every fourth); the program goes on and measures every code "
-            "point of the 256-blocks the string touches plus every 97th code point up to U+30000 with get_character_cell_size and cell_len, then the string again: all equal the table; "
+    LONG1 = "GET https://example.org/api/v2/items?page=3&per_page=50&sort=created_at"  # 72 characters, 72 cells
+    LONG2 = "https://example.org/download/releases/2021/02/archive/" + "\u65e5\u672c\u8a9e\u306e\u30d5\u30a1\u30a4\u30eb\u540d" + "/rich-9.10.0-py3-none-any.whl?token=0123456789abcdef0123456789abcdef#sha256"  # 138 characters, 147 cells
+    LONG3 = "\u4e00\u3042e\u0301 " * 17  # 85 characters, every one outside the ASCII shortcut except the blanks
+    # what is measured undisturbed before ("pre"), the measurement that is aborted ("op" on "first"; "n" = total of set_cell_size / width of chop_cells)
+    SCENARIOS = [{"pre": [], "op": "cell_len", "first": f} for f in FIRSTS] + [
+        {"pre": [], "op": "cell_len", "first": LONG2},                                  # first measurement of the process, longer than the 64 characters the cache keeps
+        {"pre": [], "op": "cell_len", "first": LONG3},
+        {"pre": [LONG1, "caf\u00e9"], "op": "cell_len", "first": LONG2},                # a later measurement: another long string and a short one were measured before
+        {"pre": [LONG1, LONG2], "op": "cell_len", "first": LONG2},                      # the same long string measured again, and that measurement aborted
+        {"pre": [LONG2, LONG1], "op": "cell_len", "first": LONG2},
+        {"pre": ["abc", "\u3042\u30a2"], "op": "cell_len", "first": "\u3044\u30a4\u4e00"},  # a later measurement of a short string whose block was looked up before
+        {"pre": ["a\u4e00\uff21\u200b"], "op": "cell_len", "first": "a\u4e00\uff21\u200b"},   # a cached string measured again
+        {"pre": [LONG1], "op": "set", "first": LONG2, "n": 80},                         # resizing / chopping aborted (they measure the whole string, then every character)
+        {"pre": [], "op": "set", "first": LONG3, "n": 40},
+        {"pre": ["a"], "op": "set", "first": "a\u4e00\uff21\u200bxyz", "n": 2},
+        {"pre": [], "op": "chop", "first": "\ud55c\uae00 and \u6f22\u5b57 e\u0301\u0300 mixed \U0001F600\U0001F64F!", "n": 7},
+        {"pre": [LONG3], "op": "chop", "first": LONG3, "n": 11},
+    ]
+    rule = ("in a fresh interpreter a width measurement is aborted by a KeyboardInterrupt raised at the K-th executed line of cells.py / _lru_cache.py, K = 1..120 (quick: every fourth) and, for "
+            "strings longer than 64 characters, K = 121..700 in steps of 7 (quick: 37).  The aborted measurement is the first of the process (cell_len of a Hiragana/Katakana, a combining, a mixed "
+            "CJK / fullwidth / zero-width or a Hangul-Jamo string, of a 138-character URL with CJK and of an 85-character string outside the ASCII shortcut) or a later one (after other long and short "
+            "strings, or the same string, were measured undisturbed), made through cell_len, set_cell_size or chop_cells.  The program goes on and measures every code point of the 256-blocks the "
+            "string touches plus every 97th code point up to U+30000 with get_character_cell_size and cell_len, then the aborted string again (twice), the strings measured before it, "
+            "set_cell_size of the string to 0 / 1 / half / width-1 / width / width+2 cells and chop_cells to 2 / 7 / n cells: all agree with the table; "
             "non-trivial = the interrupt fell inside the measurement")
     budget = {"quick": (16, 1), "thorough": (16, 1)}
 
-    def _run(self, k, first):
+    def _run(self, k, scenario):
         import json
         import os
         import subprocess
         import sys
 
         here = os.path.dirname(os.path.dirname(os.path.abspath(__file__)))
-        p = subprocess.run([sys.executable, "-B", os.path.join(here, "first_use_c13.py"), str(k), json.dumps(first)], stdout=subprocess.PIPE, stderr=subprocess.PIPE, text=True, timeout=120,
+        p = subprocess.run([sys.executable, "-B", os.path.join(here, "first_use_c13.py"), str(k), json.dumps(scenario)], stdout=subprocess.PIPE, stderr=subprocess.PIPE, text=True, timeout=120,
                            env=dict(os.environ, PYTHONHASHSEED="0"))
         if p.returncode != 0:
             return None, p.stderr[-400:]
@@ -297,32 +342,34 @@ class FirstUseInterrupted(Part):
     def run_shard(self, tier, shard, nshards, seed, stats, deadline, known):
         import time as _t
 
-        jobs = [(k, first) for k in range(1, 121, 4 if tier == "quick" else 1) for first in self.FIRSTS]
+        quick = tier == "quick"
+        jobs = [(k, sc) for k in range(1, 121, 4 if quick else 1) for sc in self.SCENARIOS]
+        jobs += [(k, sc) for k in range(121, 701, 37 if quick else 7) for sc in self.SCENARIOS if len(sc["first"]) > 64]
         n = nt = 0
         sig = "C13/firstuse/wrong-after-interrupt"
-        for ji, (k, first) in enumerate(jobs):
+        for ji, (k, sc) in enumerate(jobs):
             if ji % nshards != shard:
                 continue
             if _t.time() > deadline:
                 stats.capped = True
                 break
-            res, err = self._run(k, first)
+            res, err = self._run(k, sc)
             if res is None:
                 stats.harness_error = "first_use_c13.py failed: %s" % err
                 break
             n += 1
             nt += 1 if res["interrupted"] else 0
             if res["problems"] and sig not in stats.found and not known.match(sig):
-                stats.found[sig] = {"spec": {"k": k, "first": first}, "clause": "history", "size": 1, "part": self.name,
-                                    "detail": "after the first measurement (cell_len(%r)) was interrupted at line %d: %s" % (first, k, "; ".join(res["problems"]))}
+                stats.found[sig] = {"spec": {"k": k, "scenario": sc}, "clause": "history", "size": 1, "part": self.name,
+                                    "detail": "after %s(%r) - measured before it: %r - was interrupted at line %d: %s" % (sc["op"], sc["first"], sc["pre"], k, "; ".join(res["problems"]))}
         stats.evaluations += n
         stats.nontrivial_count_distinct += nt
         if not stats.capped:
             stats.done += 1
-        stats.samples.append((1, {"shard": shard, "processes": n, "example": {"k": 20, "first": self.FIRSTS[0]}}, "range"))
+        stats.samples.append((1, {"shard": shard, "processes": n, "example": {"k": 20, "scenario": self.SCENARIOS[0]}}, "range"))
 
     def replay(self, spec, ctx):
-        res, err = self._run(spec["k"], spec["first"])
+        res, err = self._run(spec["k"], spec["scenario"] if "scenario" in spec else spec["first"])
         if res is None:
             raise RuntimeError(err)
         if res["problems"]:
@@ -332,13 +379,16 @@ class FirstUseInterrupted(Part):
 # --------------------------------------------------------------------------------------------- (c) (d)
 class Resize(Part):
     name = "resize"
-    rule = ("set_cell_size(s, n) and chop_cells(s, w, position) over mixed-width strings |s|<=80, n 0..100, w>=2; "
+    rule = ("set_cell_size(s, n) and chop_cells(s, w, position) over mixed-width strings |s|<=80 (a fixed mixed alphabet; strings whose characters stay at the edges of one row of the "
+            "width table - its first / last code points and the code points just outside it on either side - mixed with ASCII; arbitrary Unicode strings), n 0..100, w>=2; "
             "non-trivial = a wide character straddles the cut (set) / a piece boundary (chop)")
     budget = {"quick": (4, 1500), "thorough": (16, 12000)}
 
     def strategy(self, tier):
         boundary = st.builds(lambda unit, n, cut: (unit * 300)[:n - cut], st.sampled_from(["a", "ab", chars.WIDE[0], "a" + chars.WIDE[1]]), st.sampled_from([64, 128, 192]), st.sampled_from([0, 0, 1]))
-        s = st.one_of(chars.mixed_text(80), chars.mixed_text(12), st.text(st.sampled_from(chars.WIDE + "ab" + chars.ZERO), max_size=30), boundary)
+        s = st.one_of(chars.mixed_text(80), chars.mixed_text(12), st.text(st.sampled_from(chars.WIDE + "ab" + chars.ZERO), max_size=30), boundary,
+                     # strings that stay around one row of the width table (first / last code point of the row, the code points next to it on either side), and arbitrary Unicode
+                     table_run_text(24), table_run_text(8), st.text(st.characters(blacklist_categories=("Cs",)), max_size=12))
         a = st.builds(lambda s, n: {"op": "set", "s": s, "n": n}, s, st.one_of(st.integers(0, 100), st.integers(0, 400)))
         a2 = st.builds(lambda s, d: {"op": "set", "s": s, "n": max(0, OC.width(s) + d)}, s, st.integers(-6, 3))
         b = st.builds(lambda s, w, p: {"op": "chop", "s": s, "w": w, "p": min(p, w)}, s, st.integers(2, 40), st.integers(0, 40))
@@ -411,12 +461,19 @@ SEG_STYLES = [None, None] + GS.PALETTE[:8]
 def seg_strategy(newlines=True, controls=True):
     txt = st.one_of(chars.mixed_text(8, newlines=newlines, min_size=1), chars.mixed_text(3, newlines=newlines), st.sampled_from(["\n", "a\nb", "x", chars.WIDE[0] * 2, " "]) if newlines else st.sampled_from(["x", chars.WIDE[0] * 2, " "]),
                     # characters at which str.splitlines() breaks but a line of segments does not (CR, VT, FF, FS, NEL, LS, PS): they are ordinary zero-width characters here
-                    st.sampled_from(["a\rb", "x\x0cy", "p\x1cq", "m\x85n", "u\u2028v", "w\u2029", "\x0b"] + (["a\r\nb", "s\u2028\nt"] if newlines else [])))
+                    st.sampled_from(["a\rb", "x\x0cy", "p\x1cq", "m\x85n", "u\u2028v", "w\u2029", "\x0b"] + (["a\r\nb", "s\u2028\nt"] if newlines else [])),
+                    # text that stays around one row of the width table (cropping a segment resizes its text)
+                    table_run_text(6, min_cp=0xA0))
     sty = st.sampled_from(SEG_STYLES)
     plain = st.builds(lambda t, s: {"t": t, "s": s, "c": False}, txt, sty)
     if not controls:
         return plain
-    ctl = st.builds(lambda t: {"t": t, "s": None, "c": True}, st.sampled_from(["\x07", "\x1b[2J", "\x1b[?25l", "\x1b[1A\x1b[2K", "\r"]))
+    # control segments: escape codes, and - what LiveRender / Segment.line(is_control=True) / Segment.make_control produce - any text at all, with or without a style:
+    # a lone new line, text that contains new lines, printable and wide text.  They occupy no cells, never end a line and are never split or cropped.
+    ctl_text = st.one_of(st.sampled_from(["\x07", "\x1b[2J", "\x1b[?25l", "\x1b[1A\x1b[2K", "\r"]),
+                         st.sampled_from(["\n", "\n", "\n\n", "\x1b[1A\n\x1b[2K", "ab", "a\nb", "x\n", "\ny", "", " ", chars.WIDE[0] * 2, chars.WIDE[1] + "\n"]) if newlines else st.sampled_from(["ab", "", " ", chars.WIDE[0] * 2]),
+                         chars.mixed_text(4, newlines=newlines))
+    ctl = st.builds(lambda t, s: {"t": t, "s": s, "c": True}, ctl_text, st.sampled_from([None, None] + GS.PALETTE[:3]))
     return st.one_of(plain, plain, plain, plain, ctl)
 
 
@@ -427,11 +484,11 @@ def build_segs(specs):
 
 
 def view(segments):
-    """[(char, styleview) | ('CTL', text)] of a list of segments."""
+    """[(char, styleview) | ('CTL', (text, styleview))] of a list of segments."""
     out = []
     for seg in segments:
         if seg.is_control:
-            out.append(("CTL", seg.text))
+            out.append(("CTL", (seg.text, GS.style_view(seg.style))))
         else:
             sv = GS.style_view(seg.style)
             for ch in seg.text:
@@ -440,13 +497,13 @@ def view(segments):
 
 
 def model_lines(specs):
-    """Reference line split: list of lists of (char, styleview)|('CTL', text)."""
+    """Reference line split: list of lists of (char, styleview)|('CTL', (text, styleview))."""
     lines = []
     cur = []
     open_ = False
     for s in specs:
         if s["c"]:
-            cur.append(("CTL", s["t"]))
+            cur.append(("CTL", (s["t"], GS.spec_view(s["s"]))))
             open_ = True
             continue
         sv = GS.spec_view(s["s"])
@@ -517,9 +574,12 @@ def check_adjusted(ctx, what, src, out, length, pad, padview, sigroot):
 
 class Shaping(Part):
     name = "shaping"
-    rule = ("segment lists (<=10 segments, mixed-width text, newlines anywhere, palette styles, control segments) x length 0..40 x pad x pad style "
-            "x include_new_lines through split_lines / split_and_crop_lines / adjust_line_length / set_shape / simplify; non-trivial = a wide "
-            "character straddles the cut, or a styled newline-bearing segment precedes padding of a different style, or a control segment is adjacent to text")
+    rule = ("segment lists (<=10 segments, mixed-width text and text that stays at the edges of one row of the width table, newlines anywhere, palette styles; one segment in five is a control segment, styled or not, whose text is an escape code, "
+            "a lone new line, text with new lines, printable or wide text, or empty) x length 0..40 x pad x pad style "
+            "x include_new_lines through split_lines / split_and_crop_lines / adjust_line_length / set_shape / simplify; compared with a model in which only a new line of a "
+            "non-control segment ends a line and control segments pass through unchanged (text and style) and occupy no cells; non-trivial = a wide "
+            "character straddles the cut, or a styled newline-bearing segment precedes padding of a different style, or a control segment is adjacent to text, "
+            "or a control segment containing a new line shares the list with printable text")
     budget = {"quick": (4, 1500), "thorough": (16, 10000)}
 
     def strategy(self, tier):
@@ -547,6 +607,11 @@ class Shaping(Part):
         padview = GS.spec_view(spec["pad_style"])
         segs = build_segs(specs)
         ctx.cls(op)
+        if any(s["c"] and "\n" in s["t"] for s in specs):
+            # a new line inside a control segment is a control code like any other: it neither ends a line nor occupies cells
+            ctx.cls("control-with-new-line")
+            if op != "simplify" and any(not s["c"] and s["t"].replace("\n", "") for s in specs):
+                ctx.nontrivial = True
         if op == "simplify":
             out = list(sut(Segment.simplify, iter(segs)))
             a, b = view(segs), view(out)
@@ -568,7 +633,7 @@ class Shaping(Part):
                 ctx.nontrivial = True
             return
         if op == "adjust":
-            line_specs = [dict(s, t=s["t"].replace("\n", "")) for s in specs]
+            line_specs = [s if s["c"] else dict(s, t=s["t"].replace("\n", "")) for s in specs]
             line = build_segs(line_specs)
             out = sut(Segment.adjust_line_length, line, length, style=pstyle, pad=pad)
             src = view(line)
